@@ -159,6 +159,39 @@ def run_header(case: dict) -> list[tuple[str, str]]:
     return fails
 
 
+def run_flowtype(case: dict) -> list[tuple[str, str]]:
+    from pyjelly.parse.ioutils import get_options_and_frames  # noqa: PLC0415
+    from pyjelly.serialize import flows  # noqa: PLC0415
+
+    cls, lt = case["cls"], case["logical"]
+    pt = DR.PT[cls]
+    try:
+        opts = DR.make_options(cls, (8, 0, 1), 250, True, lt, generalized=False, rdf_star=False,
+                               flow=getattr(flows, case["flow_class"])())
+        stream = DR.g_stream(cls, opts) if case["api"] == "generic" else DR.r_stream(cls, opts)
+        stream.enroll()
+        frame = stream.flow.to_stream_frame()
+    except Exception:  # noqa: BLE001
+        return []  # refused: fine
+    data = DR.frames_to_bytes([frame], True)
+    w = jwire.read_delimited(data)[0]["rows"][0]["v"]
+    fails = []
+    if not pair_allowed(w["physical_type"], w["logical_type"]):
+        fails.append(("forbidden-pair-written",
+                      f"header declares the forbidden pair physical {w['physical_type']} / logical "
+                      f"{w['logical_type']}"))
+    try:
+        popts, fr = get_options_and_frames(io.BytesIO(data))
+        list(fr)
+        if popts.stream_types.logical_type != w["logical_type"]:
+            fails.append(("reader-field", f"reader reports logical type "
+                                          f"{popts.stream_types.logical_type}, wire has "
+                                          f"{w['logical_type']}"))
+    except Exception as e:  # noqa: BLE001
+        fails.append(("read-refused", f"own header refused by the reader: {type(e).__name__}: {e}"))
+    return fails
+
+
 # --------------------------------------------------- hand-built streams (parse)
 def handmade(pt: int, lt: int, *, names=8, pf=0, dt=0, version=1, delimited=True,
              two=False) -> bytes:
@@ -353,6 +386,23 @@ def shard(job) -> dict:
                         acc.violation({"part": "header", "fail": kind}, f"{msg} case={c}", c)
         if pts:
             acc.sample({"part": "header", "example": list(pts[0])}, cap=1)
+    elif job[0] == "flowtype":
+        # an explicit flow object with a logical type of its own next to options.logical_type:
+        # whatever the writer makes of the two, it must refuse or write an allowed pair, and the
+        # reader must be told what is on the wire
+        from pyjelly.serialize import flows  # noqa: PLC0415
+
+        for api in ("generic", "rdflib"):
+            for cls in DR.CLASSES:
+                for fname in ("FlatTriplesFrameFlow", "FlatQuadsFrameFlow", "GraphsFrameFlow",
+                              "DatasetsFrameFlow"):
+                    for lt in LOGICAL:
+                        c = {"part": "flowtype", "api": api, "cls": cls, "flow_class": fname,
+                             "logical": lt}
+                        acc.evals += 1
+                        acc.nontrivial += 1
+                        for kind, msg in run_flowtype(c):
+                            acc.violation({"part": "flowtype", "fail": kind}, f"{msg} case={c}", c)
     elif job[0] == "derived":
         for api in ("generic", "rdflib"):
             for cls in DR.CLASSES:
@@ -391,6 +441,7 @@ def run(ctx) -> None:
         for lo, hi in pool.split_range(n, 24):
             jobs.append(("header", api, lo, hi, names))
     jobs.append(("derived",))
+    jobs.append(("flowtype",))
     pc = parse_cases()
     jobs += [("parse", pc[i::8]) for i in range(8)]
     merged = pool.merge(pool.pmap(shard, jobs))
@@ -420,4 +471,6 @@ def replay(case: dict) -> list:
     DR.ensure_rdflib_plugin()
     if case.get("part") == "header":
         return [m for _, m in run_header(case)]
+    if case.get("part") == "flowtype":
+        return [m for _, m in run_flowtype(case)]
     return [m for _, m in run_parse_case(case)]
